@@ -148,6 +148,11 @@ def get_all_rules(rules_path=None, match_mode='first_match'):
     """
     global _cached_engine, _cached_engine_path
 
+    # Drop any engine cached by an earlier load: normalize_merchant() prefers the
+    # cached engine over the rules passed in, so it must never outlive its rules.
+    _cached_engine = None
+    _cached_engine_path = None
+
     user_rules_with_source = []
     if rules_path:
         # Check if it's the new .rules format
